@@ -25,6 +25,12 @@ def enum_cases():
                 for desig in ("indices", "vectors", "blocked"):
                     if carrier == "sympy" and desig == "vectors": continue
                     out.append({"hermitian": herm, "offenders": [(i, j)], "carrier": carrier, "designation": desig, "sizes": [1, 2, 1]})
+    # the deprecated one-argument solver is defined for two blocks: with three (of any sizes, equal ones included) it is refused at first use
+    for sizes in ([1, 1, 1], [2, 2, 2], [2, 1, 2]):
+        out.append({"hermitian": True, "offenders": [], "carrier": "dense", "designation": "indices", "sizes": sizes, "feature": "legacy-solver"})
+    # the KPM solver with an auxiliary vector (an exact eigenvector of the implicit part) whose level is shared with an explicit subspace it couples to
+    for sizes in ([1, 2], [2, 3]):
+        out.append({"hermitian": True, "offenders": [], "carrier": "sparse", "designation": "implicit", "sizes": sizes, "feature": "kpm-aux-shared"})
     # a mask of the non-Hermitian algorithm (no symmetry asked) with a single entry between two equal levels, below or above the diagonal
     for side in ("lower", "upper"):
         for carrier in ("dense", "sparse"):
@@ -102,6 +108,8 @@ def build(cfg, rnd):
         for c in range(d):
             if c not in (a, b) and abs(H0[c, c] - 0.3) < 1: H0[c, c] += 5
     if feature == "not-orthonormal-across-subspaces": H0[off[1], off[1]] = 0.0
+    if feature == "kpm-aux-shared" and desig == "implicit":
+        a, b = off[0], off[N - 1]; H0[b, b] = H0[a, a]; H1[a, b] = H1[b, a] = 1.0; late = "shared"
     if feature == "shared-eigenvalue-uncoupled-at-first-order":
         a, b = off[0], off[1]; H0[b, b] = H0[a, a]; late = "shared-uncoupled"
         for (i, j, v) in ((a, b, 0.0), (a, a + 1, 1.0), (a + 1, b, 1.0), (a, b + 1, 1.0), (b + 1, b, 2.0)): H1[i, j] = H1[j, i] = v
@@ -172,7 +180,7 @@ def build(cfg, rnd):
             use = [np.array(u, dtype=float) for u in use]; b0 = off[1]                        # first state of the second subspace, given zero energy
             v = use[0][:, 0] + 0.6 * eye[:, b0]; use[0][:, 0] = v / np.linalg.norm(v); facts["biorthonormal"] = False
         # (implicit mode with a solver of the caller's and sparse vectors is outside the documented inputs: the projector needs arrays)
-        if carrier == "sparse" and rnd.random() < 0.6 and not (desig == "implicit" and feature in ("custom-solver", "custom-solver+fd", "legacy-solver")):      # the eigenvectors in the carrier of the Hamiltonian: sparse arrays or legacy sparse matrices
+        if carrier == "sparse" and rnd.random() < 0.6 and feature != "kpm-aux-shared" and not (desig == "implicit" and feature in ("custom-solver", "custom-solver+fd", "legacy-solver")):      # the eigenvectors in the carrier of the Hamiltonian: sparse arrays or legacy sparse matrices
             cv = sparse.csr_array if rnd.random() < 0.5 else sparse.csr_matrix
             use = [tuple(cv(np.asarray(w)) for w in u) if isinstance(u, tuple) else cv(np.asarray(u)) for u in use]; cfg["sparse_vectors"] = cv.__name__
             if desig == "implicit": facts["array_vectors"] = False      # (implicit mode asks for NumPy arrays: TypeError)
@@ -180,6 +188,8 @@ def build(cfg, rnd):
         if desig == "implicit":
             if feature == "implicit-fd-last": kw["fully_diagonalize"] = (N - 1,); facts["fd"] = {"kind": "blocks", "blocks": [N - 1]}
             if feature == "kpm-nonhermitian": kw["direct_solver"] = False; facts["direct_solver"] = False
+            if feature == "kpm-aux-shared":
+                kw["direct_solver"] = False; facts["direct_solver"] = False; kw["solver_options"] = {"auxiliary_vectors": eye[:, [off[N - 1]]], "atol": 1e-6}
     if feature in ("custom-solver", "custom-solver+fd", "legacy-solver"):
         facts["custom_solver"] = True
         if feature == "legacy-solver":
